@@ -83,6 +83,9 @@ def agreeb (env : Env) (senv : SEnv) : Nat → Ty → SType → Bool
       | _ => false)
     | .refT t => agreeRef env senv f t S
     | .prim p => agreePrim p S
+    | .highload => (match S with
+      | .highloadDict => true
+      | _ => false)
     | .chain e => (match S with
       | .chainOf s => agreeb env senv f e s
       | _ => false)
